@@ -42,7 +42,7 @@ BOUNDS = {"quick": dict(n=28, sizes=dict(canon=4, cut_programs=2, cut_cases=2400
           "thorough": dict(n=112, sizes=dict(canon=40, cut_programs=30, cut_cases=8000, mutated_programs=100, mutations=120,
                                             soups=80000, corpus_cuts=60, corpus_mutations=20), trees=30, cli=6)}
 MINIMUM = {"quick": {"monitor.scan_file_calls": 25000, "monitor.check_command_calls": 300, "monitor.scan_path_calls": 50,
-                     "monitor.scan_command_calls": 50, "monitor.cli_runs": 40, "monitor.cpu_bounded_cases": 1000},
+                     "monitor.scan_command_calls": 50, "monitor.cli_runs": 40, "monitor.cpu_bounded_cases": 600},
            "thorough": {"monitor.scan_file_calls": 600000, "monitor.check_command_calls": 8000, "monitor.scan_path_calls": 1500,
                         "monitor.scan_command_calls": 1500, "monitor.cli_runs": 1000}}
 PY = "/venv/bin/python"
